@@ -352,6 +352,24 @@ func (w *World) Conform(real b6.World, absent []b6.FeatureID, queries []b6.Query
 		if class, detail := w.CheckFind(q, got); class != "" {
 			add("find:"+class, "FindFeatures(%s): %s (got %v)", q, detail, got)
 		}
+		// the features the iterator delivers must be the current versions
+		if p, cl, fr, _ := core.Protect(func() {
+			fs := real.FindFeatures(q)
+			for fs.Next() {
+				f := fs.Feature()
+				if f == nil {
+					add("find-feature:nil", "FindFeatures(%s) delivered a nil feature for %s", q, fs.FeatureID())
+					continue
+				}
+				if s, ok := w.F[f.FeatureID()]; ok {
+					for _, d := range w.CheckFeature(f, s, geometry) {
+						add("find-feature:"+d.Class, "FindFeatures(%s) delivered %s", q, d.Detail)
+					}
+				}
+			}
+		}); p {
+			add("find-feature:panic@"+fr, "reading the features delivered by FindFeatures(%s) panicked: %s", q, cl)
+		}
 	}
 	return out
 }
